@@ -425,7 +425,7 @@ DOCUMENTED_SHORT_MACROS = (
     ["REQUIRE_CALL", "ALLOW_CALL", "FORBID_CALL", "NAMED_REQUIRE_CALL", "NAMED_ALLOW_CALL", "NAMED_FORBID_CALL",
      "REQUIRE_CALL_V", "ALLOW_CALL_V", "FORBID_CALL_V", "NAMED_REQUIRE_CALL_V", "NAMED_ALLOW_CALL_V", "NAMED_FORBID_CALL_V",
      "WITH", "LR_WITH", "SIDE_EFFECT", "LR_SIDE_EFFECT", "RETURN", "LR_RETURN", "THROW", "LR_THROW",
-     "TIMES", "RT_TIMES", "AT_LEAST", "AT_MOST", "IN_SEQUENCE", "ANY",
+     "TIMES", "RT_TIMES", "AT_LEAST", "AT_MOST", "IN_SEQUENCE", "ANY", "MEMBER_IS",
      "MAKE_MOCK", "MAKE_CONST_MOCK", "REQUIRE_DESTRUCTION", "NAMED_REQUIRE_DESTRUCTION"]
     + ["%s%d" % (m, i) for m in ("MAKE_MOCK", "MAKE_CONST_MOCK", "IMPLEMENT_MOCK", "IMPLEMENT_CONST_MOCK") for i in range(16)])
 DOCUMENTED_SHORT_MACROS_CXX20 = ["CO_RETURN", "CO_YIELD", "CO_THROW", "LR_CO_RETURN", "LR_CO_YIELD", "LR_CO_THROW"]
